@@ -6,6 +6,13 @@ from ..common import Violation, Skip, guard, parse, render, Ref, Invalid
 from ..harness import Part, step_budget
 from .. import gen, gates, gen_emul, refexec, refsim
 
+def _msgkey(e):
+    """Short stable key of an error message (digits and quoted names removed)."""
+    import re
+
+    return re.sub(r"[0-9]+|'[^']*'", "#", str(e))[:40]
+
+
 PROPERTY = "C03"
 RULE = (
     "Executable programs over a per-case random native gate set (1-, 2-, 3-qubit Haar-style fixed unitaries, "
@@ -115,16 +122,16 @@ def run_emulator(prog, env, natives, budget):
     text = render.to_text(prog)
     st_, c = guard(parse, text, inject_pulses=natives, what="parse")
     if st_ == "err":
-        raise Violation("rejected-valid-program", f"parse: {c}\n--- program:\n{text}")
+        raise Violation("rejected-valid-program", f"parse: {c}\n--- program:\n{text}", where="parse:" + _msgkey(c))
     if env:
         st_, c = guard(fill_in_let, c, dict(env), what="fill_in_let")
         if st_ == "err":
-            raise Violation("rejected-valid-program", f"fill_in_let: {c}\n--- overrides {env}\n--- program:\n{text}")
+            raise Violation("rejected-valid-program", f"fill_in_let: {c}\n--- overrides {env}\n--- program:\n{text}", where="fill_in_let:" + _msgkey(c))
     np.random.seed(12345)
     with step_budget(budget):
         st_, res = guard(run_jaqal_circuit, c, what="run_jaqal_circuit")
     if st_ == "err":
-        raise Violation("rejected-valid-program", f"run: {res}\n--- overrides {env}\n--- program:\n{text}")
+        raise Violation("rejected-valid-program", f"run: {res}\n--- overrides {env}\n--- program:\n{text}", where="run:" + _msgkey(res))
     return res, text
 
 
